@@ -13,8 +13,9 @@ for unbounded histories with any number of restarts:
 * `no_overlap_across_restarts` — no pod CIDR held by an existing node is handed out again, before or after any restart;
 * `restart_records_every_holder` — right after a restart every holder is associated with exactly one entry, all its
   pod CIDRs in use there;
-* `restart_forgets_unwritten_reservations` — whatever the crashed incarnation had reserved without writing it is free:
-  every association after the restart belongs to a listed node;
+* `restart_forgets_unwritten_reservations`, `after_restart_only_justified_blocks_are_used` — whatever the crashed
+  incarnation had reserved without writing it is free: every association after the restart belongs to a listed node,
+  every block in use is a pod CIDR of such a node or meets a service range;
 * `crash_after_node_write` — a node item with *any* write outcomes, also writes applied although the controller saw
   an error (the crash point "between a successful write and recording it"), followed by a restart, ends in a state
   satisfying the invariant.  (Without the restart that outcome is finding P13.)
@@ -59,6 +60,13 @@ theorem restart_forgets_unwritten_reservations {s : Sys} (h : Inv3 s) (svcs : Li
     ∀ i x, Claims (boot s svcs ws).1.alloc x i →
       ∃ v ∈ (boot s svcs ws).1.api.nodes, v.name = x ∧ v.cidrs ≠ [] ∧ ∀ cd ∈ v.cidrs, UsedAt (boot s svcs ws).1.alloc i cd :=
   Restart.restart_claims_listed h svcs ws hf
+
+/-- "blocks that had been reserved but never written are free": right after a restart a block is in use only if it
+is a pod CIDR of a node associated with that entry (a listed node, by `restart_forgets_unwritten_reservations`) or
+meets a configured service range -/
+theorem after_restart_only_justified_blocks_are_used {s : Sys} (h : Inv3 s) (svcs : List Cidr) (ws : List WOut)
+    (hf : Frag3 s (.boot svcs ws)) : Tight (boot s svcs ws).1 :=
+  Restart.restart_withholds_only_justified h svcs ws hf
 
 /-- crash between a successful node write and recording it -/
 theorem crash_after_node_write {s : Sys} (h : Inv3 s) (name : String) (refresh : Bool) (ws : List WOut)
